@@ -20,6 +20,7 @@ type retSite struct {
 	vals  []SV
 	st    *State
 	nf    int
+	pos   token.Pos
 }
 
 type deferred struct {
@@ -243,6 +244,9 @@ func (fr *frame) mergePhi(phi *ssa.Phi, edges []edgeState) SV {
 	out := SV{t: fr.vc.nameTerm("phi", t, fr.vc.sortOf(phi.Type())), typ: phi.Type()}
 	if res.fn != nil {
 		out.fn = nil
+	}
+	if fr.vc.sortOf(phi.Type()) == "Iface" {
+		out.dyn = fr.vc.mergeDyn(out, vals)
 	}
 	return out
 }
@@ -627,7 +631,7 @@ func (fr *frame) execInstr(ins ssa.Instruction, cur *State, incoming map[*ssa.Ba
 		for _, r := range x.Results {
 			vals = append(vals, fr.val(r))
 		}
-		fr.rets = append(fr.rets, retSite{guard: fr.g, vals: vals, st: cur.clone(), nf: len(vc.facts)})
+		fr.rets = append(fr.rets, retSite{guard: fr.g, vals: vals, st: cur.clone(), nf: len(vc.facts), pos: x.Pos()})
 	case *ssa.Panic:
 		vc.panics = append(vc.panics, panicSite{guard: fr.g, val: fr.val(x.X), st: cur.clone(), what: "panic@" + funcKey(fr.fn), nf: len(vc.facts)})
 		fr.g = tFalse
@@ -816,7 +820,7 @@ func (fr *frame) execValue(v ssa.Value, cur *State) SV {
 		ref := cur.alloc
 		cur.alloc = vc.bump(cur.alloc)
 		h := vc.arrHeap(et)
-		vc.heapSet(cur, h, sto(vc.heapGet(cur, h), ref, "((as const (Array Int "+vc.sortOf(et)+")) "+vc.zero(et)+")"))
+		vc.heapSet(cur, h, sto(vc.heapGet(cur, h), ref, vc.constArray("(Array Int "+vc.sortOf(et)+")", vc.zero(et))))
 		return SV{t: app("mk_slice", ref, "0", ln, cp), typ: x.Type()}
 	case *ssa.Slice:
 		return fr.sliceOp(x, cur)
